@@ -628,12 +628,16 @@ impl WriterSet {
             self.bytes_since_sync += len;
         }
 
+        // Hand the buffered records to the file before any bookkeeping: a failed flush rejects the
+        // transaction (the caller truncates it from the log), so none of it may stay queued for
+        // the indexes or advance the partition sequence
+        self.writer.flush_writer()?;
+
         self.next_partition_sequences
             .insert(req.partition_id, next_partition_sequence);
         self.pending_indexes.extend(new_pending_indexes);
         self.unflushed_events += event_count as u32;
 
-        self.writer.flush_writer()?;
         self.sync_if_necessary();
 
         Ok(AppendResult {
